@@ -12,7 +12,8 @@
 (*   raw     every message read from worker.results_endpoint, in order (by next_result(),   *)
 (*           call() and the final drain): [c |-> counter, f |-> "T"|"F", v |-> value]       *)
 (*   late    outcomes ("ok" | "WCE" | "raised:X") of the enqueue attempts made after        *)
-(*           close()/wait() was called or the death of the child had been observed          *)
+(*           close()/wait() was called or after the death of the child (observed through    *)
+(*           the API, caused by the scenario, or established from the OS by the harness)    *)
 (*   calls   one record per call(): k = index in enq of its item (0 = refused), out =       *)
 (*           "val" | "WCE" | "Empty" | "raised:X", v = value returned, nread = number of    *)
 (*           valid results read before, late = "T" iff after close/observed death           *)
@@ -46,8 +47,8 @@ KwMerge(d, x) == {p \in Range(d) : p[1] \notin Keys(x)} \cup Range(x)
 
 SpecTag(s) == CASE s = "@none" -> "none" [] s = "@zero" -> "zero" [] s = "@empty" -> "empty"
                 [] s = "@big" -> "big" [] s = "@stuck" -> "released" [] s = "@busy" -> "busydone"
-                [] s = "@slowres" -> "slow" [] OTHER -> "echo"
-IsSpecial(a) == Len(a) > 0 /\ a[1] \in {"@none", "@zero", "@empty", "@big", "@stuck", "@busy", "@slowres"}
+                [] s = "@slowres" -> "slow" [] s = "@linger" -> "lingering" [] OTHER -> "echo"
+IsSpecial(a) == Len(a) > 0 /\ a[1] \in {"@none", "@zero", "@empty", "@big", "@stuck", "@busy", "@slowres", "@linger"}
 
 \* v is what the target returns for the enqueue e on pristine defaults d / dk
 ValueOK(v, d, dk, e) ==
